@@ -455,7 +455,15 @@ class ExprMixin:
         if self.spec_mode:
             return
         if not self.entails(z >= 0):
-            raise Unsupported('possibly negative %s' % what)
+            # once more with the obligation budget (the fact may need instantiations of quantified invariants)
+            saved = self.branch_timeout_ms
+            self.branch_timeout_ms = self.check_timeout_ms
+            try:
+                ok = self.entails(z >= 0)
+            finally:
+                self.branch_timeout_ms = saved
+            if not ok:
+                raise Unsupported('possibly negative %s' % what)
 
     def do_slice(self, base, sl):
         if sl.step is not None:
